@@ -952,7 +952,18 @@ func (c *c15Checker) savCase(lines []string, varname, space, op string) {
 
 // ---------- run ----------
 
+// inputs that once showed a defect or a disagreement; always run first
+var c15Corpus = [][]string{
+	{"LONG_VARNAME_1=\tx", "A=\t" + "123456789012345678901234567890123456789012345678901234567890"}, // DESIGN 8-8
+	{"X=\tv \\", "        a\\\\\\", "\tw"},                                                   // backslash run before the continuation
+	{"V != "},
+	{"#VAR =\tvalue", "OTHER=\tx"},
+}
+
 func (c *c15Checker) unitVaralign(rng *Rng, thorough bool) {
+	for _, ls := range c15Corpus {
+		c.alignFragment(ls, "corpus")
+	}
 	// 1. all 1-line paragraphs
 	for _, nw := range c15NameWidths {
 		for _, op := range c15Ops {
